@@ -1,15 +1,17 @@
-"""C16 -- an interrupt stops all running tasks and records nothing unfinished (PARTIAL).
+"""C16 -- an interrupt stops all running tasks and records nothing unfinished.
 
-proofs : coq/Props/C16.v (abort handlers as a function of the interruption point; loop states)
+proofs : coq/Props/C16.v (the signal handler, the deferred region around a launch and run_plan's abort handler as a small
+         machine over the statements of the block -- regenerated from the sources; loop states)
 tie    : line-level signal injector on the REAL planner/executor under the fake process layer:
          for sampled (thorough: all) line events k of a run, SIGINT/SIGTERM is raised there and the
          Python-level handler raises ConductorAbort before line k executes.  Oracle per injection:
          (1) ConductorAbort -- not an internal error -- leaves the run; (2) every fake process that
          was spawned and not reaped received killpg(SIGTERM); (3) every index row belongs to a task
-         whose process had exited 0.  The point "inside Popen() after the fork" (known finding D7')
-         is injected at the end of the fake Popen.  Real `cond run` processes with sleeping children
+         whose process had exited 0.  The point "inside Popen() after the fork" (D35, the former known
+         finding D7') is injected at the end of the fake Popen.  Real `cond run` processes with sleeping children
          are interrupted with real signals as well.
-limits : injection is per line; CPython can deliver between the bytecodes of one line.
+limits : injection is per line; CPython can deliver between the bytecodes of one line (inside the launch block this no
+         longer matters: the handler only notes the signal there).
 """
 import os
 import signal
@@ -319,7 +321,7 @@ def run(tier, seed, replay=None):
             ks = sorted(set(picked) | set(ks[::stride]) | set(chk.rng.sample(ks, min(len(ks), per_case // 3))))
         fired += sweep(chk, case, ks, sigs)
         chk.sample({"graph": case.graph_text(), "jobs": case.jobs, "line_events": n, "injections": len(ks)})
-    # known finding D7': inside Popen() after the fork, at the 1st and 2nd spawn
+    # D35 (former known finding D7'): inside Popen() after the fork, at the 1st and 2nd spawn
     for case in cases[:2]:
         for idx in (1, 2):
             obs = run_impl(case, inject={"k": None, "popen_end": True, "spawn_index": idx, "sig": signal.SIGINT})
@@ -334,7 +336,7 @@ def run(tier, seed, replay=None):
     chk.coverage["line_events_per_run_total"] = total_events
     chk.coverage["rule"] = ("SIGINT/SIGTERM raised at line event k of planning+execution (files under conductor/execution, utils/sigchld.py, task_types/run.py) of %d "
                             "fixed graphs (parallel fan-in, chain, combine/group mix with --again, --stop-early with a failing task, cached experiment) under the fake process "
-                            "layer; quick: a stride plus random sample of k, thorough: every k; plus the end of Popen() (known finding D7') and real interrupted `cond run -j3` "
+                            "layer; quick: a stride plus random sample of k, thorough: every k; plus the end of Popen() (D35, the former known finding D7') and real interrupted `cond run -j3` "
                             "processes with sleeping children; distinct_nontrivial = distinct (file, function, line) program points at which a signal was injected" % len(cases))
     real_interrupts(chk, 3 if tier == "quick" else 18)
     interrupt_while_loading(chk)
